@@ -123,7 +123,8 @@ Section Laws.
       forall h data, r = MOk h -> quiet w1 -> swf (V w1) -> framed (write_close h data) w1 [p];
     law_user_mkdir : forall w p perm, quiet w -> swf (V w) -> snolinkpar (V w) p -> framed (a_mkdir a p perm) w [p];
     law_user_mkdirall : forall w p perm, quiet w -> swf (V w) -> snolinkpar (V w) p -> framed (a_mkdirall a p perm) w (cands p);
-    law_user_remove : forall w p, quiet w -> swf (V w) -> snolinkpar (V w) p -> framed (a_remove a p) w [p];
+    (** (removing the root directory of the view itself is the recorded finding K6) *)
+    law_user_remove : forall w p, quiet w -> swf (V w) -> snolinkpar (V w) p -> p <> s_root -> framed (a_remove a p) w [p];
     law_user_rename : forall w po pn, quiet w -> swf (V w) -> snolinkpar (V w) po -> snolinkpar (V w) pn ->
       no_children (V w) po -> framed (a_rename a po pn) w [po; pn];
     law_user_chmod : forall w p mode, quiet w -> swf (V w) -> snolinkpar (V w) p -> snotlink (V w) p -> framed (a_chmod a p mode) w [p];
